@@ -24,6 +24,7 @@ CLAUSE = {
     "join-before-revoke-callback-finished": "revoke_before_assign_groupwide",
     "join-sent-during-callback": "revoke_before_assign_groupwide",
     "session-expired-during-revoke-callback": "revoke_before_assign_groupwide",
+    "adopted-under-superseded-subscription": "stale_data_never_delivered",
 }
 
 
